@@ -1,5 +1,5 @@
 (* C07  Multi-key commands are atomic: moves conserve elements.  Statements only (coq/Model/Conc.v). *)
-From Nodis Require Import Model.Conc Proofs.ConcProofs Proofs.MoveProofs.
+From Nodis Require Import Model.Conc Proofs.ConcProofs Proofs.MoveProofs Proofs.BlockProofs Proofs.ConcGenProofs.
 From Coq Require Import ZArith List Bool Arith Lia.
 Import ListNotations.
 Local Open Scope Z_scope.
@@ -33,3 +33,44 @@ Theorem C07_two_moves_into_missing_destination_conserve :
   key_val 1 s = Some 1 /\ key_val 2 s = Some 1 /\ key_val 3 s = Some 2.
 Proof. vm_compute. repeat split; reflexivity. Qed.
 Print Assumptions C07_two_moves_into_missing_destination_conserve.
+
+(* ---- moves conserve elements, for EVERY interleaving --------------------------------------------------
+   Any number of LPOPRPUSH a b (a <> b), RPUSH, RPUSHX and LPOP clients on any keys - existing, missing, emptied
+   and unlinked by a pop or a move while others hold stale pointers, created by a push or as a move's destination -
+   and any interleaving of micro-steps (lookups, Lock calls and their validation, loads, stores, unlink, publish,
+   commit; a move holds its source record while it looks up, waits for, locks or creates its destination).
+   At every moment, for every key k: value(k) (0 if missing) = initial value + sum over the clients of eff k, where a
+   move contributes -1 to its source from the moment its pop is stored and +1 to its destination from the moment
+   its push is stored, and nothing else ever.  So an element in flight is counted exactly once (it is missing
+   from the source and not yet in the destination only while its mover stands between the two stores), no element is
+   lost and none is duplicated - also when two moves create the same missing destination, or one empties and
+   unlinks the source another is about to pop.  When everybody has replied: value(k) = initial + acknowledged
+   pushes and moves into k - acknowledged pops and moves out of k.  (Rotation a = b and DEL are outside this theorem:
+   kernel-evaluated schedules above and forced schedules on the implementation.) *)
+Theorem C07_moves_conserve_elements : forall vals cmds sched,
+  supported cmds -> (forall kv, In kv vals -> 0 <= snd kv) ->
+  let s := run_micro sched (init_state vals cmds) in
+  forall k, cur0 k s = cur0 k (init_state vals cmds) + asum (eff k) (ths s).
+Proof. exact supported_conserve. Qed.
+Print Assumptions C07_moves_conserve_elements.
+Theorem C07_moves_final_values : forall vals cmds sched,
+  supported cmds -> (forall kv, In kv vals -> 0 <= snd kv) ->
+  let s := run_micro sched (init_state vals cmds) in
+  (forall t x, In (t, x) (ths s) -> exists rp, t_pc x = PDone rp) ->
+  forall k, cur0 k s = cur0 k (init_state vals cmds) + count_th (acked_push k) (ths s) - count_th (acked_pop k) (ths s).
+Proof. exact supported_conserve_when_done. Qed.
+Print Assumptions C07_moves_final_values.
+
+(* non-vacuous: two moves into a destination that does not exist, a third move emptying and unlinking the source of
+   a fourth, a push and a pop in between; the interesting paths are taken and the books balance *)
+Example C07_general_nonvacuous :
+  let cmds := [Move 1 3; Move 2 3; Move 1 2; Pop 3; Push 1]%nat in
+  supported cmds /\
+  let s := run_micro [0;1;0;1;0;1;0;1;0;1;0;1;0;1;0;1;0;1;0;1;0;1;0;1;2;2;2;2;2;2;2;2;2;2;2;2;3;3;3;3;3;3;4;4;4;4;4;4;4]%nat
+             (init_state [(1%nat, 2); (2%nat, 1)] cmds) in
+  reply_of 0 s = Some 1 /\ reply_of 1 s = Some 1 /\ reply_of 2 s = Some 1 /\ reply_of 3 s = Some 1 /\
+  cur0 1 s + cur0 2 s + cur0 3 s = 2 + 1 + 1 - 1.
+Proof.
+  split; [intros c Hc; cbn in Hc; repeat (destruct Hc as [<-|Hc]; [cbn; try exact I; discriminate|]); destruct Hc|].
+  vm_compute. repeat split; reflexivity.
+Qed.
